@@ -192,13 +192,15 @@ def check(rep, tier):
     for (how, pool) in combos:
         for var in (True, False):
             cfg = base_cfg(rng, var)
-            while how == "sync" and cfg["shape"][2] > 1:
-                cfg = base_cfg(rng, var)          # the parallel-write mode is always exercised (flat shelf)
+            while (how == "sync" or (how == "async" and pool and pool > 1)) and cfg["shape"][2] > 1:
+                cfg = base_cfg(rng, var)          # the parallel modes with several workers are always exercised (flat shelf)
             if cfg["shape"][2] > 1:
                 continue
             Nrep = rng.randint(1, 12) if tier != "quick" else rng.choice([1, 4, 7])
             if how == "sync":
                 Nrep = max(Nrep, 4)               # several workers writing into the shared result dict (reverse order, impl.adversarial_pool)
+            if how == "async" and pool and pool > 1:
+                Nrep = 2 * pool + 1               # more repetitions than workers and NOT a multiple of the worker count (uneven chunks)
             try:
                 with impl.quiet():
                     SF = sfall.Snowfall(Nrep=Nrep, pool_size=pool, k=dict(cfg["k"]), N_vials=cfg["shape"], dt=cfg["dt"], seed_v=cfg["seed_v"],
